@@ -18,7 +18,7 @@ LEVEL_TEXT = ("Static structural proof of necessary conditions: (R9.1) every fun
               "registered as DEFINITION_INVALID and reachable from the dictionary, HED_DEF_EXPAND_INVALID as "
               "DEF_EXPAND_INVALID from string validation. The content of an expansion, the shrink/expand round trip "
               "beyond R9.1 and interleavings with copy/validate are NOT decided.")
-LEVEL_EXTRA = 'Added after the seeded evaluation: (R9.5) HedTag.__deepcopy__ copies the cached expansion, its flag and the parent link; (R9.6) validators obtain expansions with a copy of the tag; (R9.7) every access to a definition table case-folds with casefold (one frozen exception: keys copied from another table); (R9.8) the nested-Def search in definition contents is recursive. (R9.9) the Def-expand content test compares sorted forms of both groups. (R9.10) the column-wise expand/shrink variants store through a single indexer (no chained assignment). (R9.11) written-form tag equality is only a fallback for tags the schema did not identify. (R9.12) no issue list is discarded in the definition modules; (R9.13) package-internal modules are imported by their package path; (R9.14) HedGroup locates children by identity. (R9.15) no dictionary key or set member is a tag/group object drawn from an annotation. (R9.16) a parameter is handed on to every repository callee that takes a parameter of the same name (11 frozen exceptions package-wide).'
+LEVEL_EXTRA = 'Added after the seeded evaluation: (R9.5) HedTag.__deepcopy__ copies the cached expansion, its flag and the parent link; (R9.6) validators obtain expansions with a copy of the tag; (R9.7) every access to a definition table case-folds with casefold (one frozen exception: keys copied from another table); (R9.8) the nested-Def search in definition contents is recursive. (R9.9) the Def-expand content test compares sorted forms of both groups. (R9.10) the column-wise expand/shrink variants store through a single indexer (no chained assignment). (R9.11) written-form tag equality is only a fallback for tags the schema did not identify. (R9.12) no issue list is discarded in the definition modules; (R9.13) package-internal modules are imported by their package path; (R9.14) HedGroup locates children by identity. (R9.15) no dictionary key or set member is a tag/group object drawn from an annotation. (R9.16) a parameter is handed on to every repository callee that takes a parameter of the same name (11 frozen exceptions package-wide). (R9.17) every Def/Def-expand row mask of the column-wise helpers is case-insensitive.'
 
 ROWS = [{"key": "DefinitionErrors." + k, "code": "DEFINITION_INVALID"} for k in (
     "WRONG_NUMBER_GROUPS", "WRONG_NUMBER_TAGS", "NO_DEFINITION_CONTENTS", "INVALID_DEFINITION_EXTENSION",
@@ -499,3 +499,8 @@ def run(ctx):
     from sa.forward import check_forwarding
     nfw = check_forwarding(ctx, "R9.16", [f for f in prog.functions.values() if f.module.name.startswith(('hed.models.definition_dict', 'hed.models.definition_entry', 'hed.models.def_expand_gather', 'hed.validator.def_validator', 'hed.models.hed_string'))], 'e.g. the schema, the definition dictionaries')
     ctx.floor("R9.16", "same-named parameter sites", nfw, 1)
+
+    # ---------------- R9.17: the column-wise expand/shrink variants select rows case-insensitively
+    ctx.rule("R9.17", "every Def/Def-expand row mask of the column-wise helpers is case-insensitive")
+    from sa.idioms import check_def_masks_case_insensitive
+    check_def_masks_case_insensitive(ctx, "R9.17")
